@@ -490,6 +490,9 @@ TREES = {
     "std": [(("a",), None), (("a", "b"), None), (("a", "f"), b"hello"), (("b",), None), (("f",), b"0123456789")],
     "deep": [(("a",), None), (("a", "a"), None), (("a", "a", "f"), b"xy"), (("a", "a", "b"), None), (("b",), None), (("b", "f"), b"")],
 }
+# directories with more entries than any batch a backend might fetch at a time (64, 128, 256 are the natural sizes)
+for _n in (65, 129, 200, 257):
+    TREES["wide%d" % _n] = [(("w",), None)] + [(("w", "e%03d" % i), b"x" if i % 3 else None) for i in range(_n)] + [(("z",), b"last")]
 DATA = ["", "5a", "50515253", "00" * 3, "6162636465666768696a6b6c"]
 
 
@@ -564,6 +567,8 @@ def gen_api(ctx):
                 known = known + [op[2]]
                 recent.append(op[2])
         seqs.append((tname, ops))
+    for tname in sorted(t for t in TREES if t.startswith("wide")):
+        seqs.append((tname, [("list", ("w",)), ("unlink", ("w", "e001")), ("list", ("w",)), ("list", ())]))
     return seqs
 
 
